@@ -120,6 +120,34 @@ class TmplSpace(Space):
         return self.cases[i]
 
 
+class SwitchKeys(Space):
+    """#switch with every ordered pair of case keys that are equal to the comparand as strings, as numbers, or not at all; the
+    results are literals in both lexical orders or template parameters, so a winner picked by comparing results shows"""
+    name = "tmpl"
+    KEYS = ["1", "01", "1.0", "+1", "a", "A", "", "b"]
+
+    def __init__(self):
+        self.cases = []
+        px = ("param", "x", None)
+        results = [([lit("B")], [lit("A")]), ([lit("A")], [lit("B")]), ([px], [lit("A")]), ([lit("B")], [px]), ([px], [px])]
+        for ws in ("", " "):
+            for comp in self.KEYS:
+                for k1 in self.KEYS:
+                    for k2 in self.KEYS:
+                        if k1 == k2:
+                            continue
+                        for r1, r2 in results:
+                            for default in (None, w([lit("DEF")], ws)):
+                                sw = ("switch", (ws, [lit(comp)], ws), [([w([lit(k1)], ws)], w(r1, ws)), ([w([lit(k2)], ws)], w(r2, ws))], default)
+                                self.cases.append(([lit("t")], T2_BODIES[0], [lit("<<"), sw, lit(">>")]))
+
+    def __len__(self):
+        return len(self.cases)
+
+    def __getitem__(self, i):
+        return self.cases[i]
+
+
 class C04(InputProp):
     id = "C04"
     rule = ("expr: every expression tree up to the operator-node bound, serialised twice, evaluated by the real {{#expr:}} and compared "
@@ -141,7 +169,7 @@ class C04(InputProp):
         self.db = LangDB("en", {})
         plain = [x for x in W.SIGMA_CORE if not any(c in x for c in "{}<")]
         fams = [ExprSpace(0, LITS6, "expr0"), ExprSpace(1, LITS6, "expr1"), ExprSpace(2, LITS6, "expr2"),
-                TmplSpace(1 if tier == "quick" else 2), Seqs(plain, 3, name="ident")]
+                TmplSpace(1 if tier == "quick" else 2), SwitchKeys(), Seqs(plain, 3, name="ident")]
         if tier != "quick":
             fams.append(ExprSpace(3, LITS3, "expr3"))
         self.space = Concat(*fams)
